@@ -380,7 +380,11 @@ def m_box_into_vec(c, call, b): return VecV(deref(b).value)
 def m_slice_into_vec(c, call, b):
     b = deref(b)
     return VecV(b.value if isinstance(b, BoxUninitV) else seq_of(b))
-@reg('Box::new', 'Box::pin', 'Arc::new', 'Rc::new', 'Pin::new', 'Pin::new_unchecked', 'Mutex::new')
+@reg('Box::new')
+def m_box_new_(c, call, x): return BoxV([x])
+@reg('Box::pin')
+def m_box_pin(c, call, x): return Tup([BoxV([x])])
+@reg('Arc::new', 'Rc::new', 'Pin::new', 'Pin::new_unchecked', 'Mutex::new')
 def m_box_new(c, call, x): return Tup([x])
 @reg('Pin::as_mut', 'Pin::get_mut', 'Pin::into_inner', 'Pin::get_unchecked_mut', 'Pin::as_ref', 'Pin::get_ref', 'Pin::into_ref', 'Pin::set')
 def m_pin_passthrough(c, call, x, *a):
